@@ -21,7 +21,13 @@ cumulant_basis_change_of_mix cumulant_basis_change_of_mix_opt cumulant_basis_cha
 cumulant_single_qubit_basis_change etm_basis_change etm_sum_basis_change
 process_fidelity_basis_independent cumulant_trace_basis_independent
 infidelity_eq_neg_trace_model_cumulant etm_basis_change_from_scratch'''.split()
-LEAN_MODULES = ['FFVerif.Props.C12', 'FFVerif.Props.C08Inv', 'FFVerif.Props.C12Etm']
+LEAN_MODULES = ['FFVerif.Props.C12', 'FFVerif.Props.C08Inv', 'FFVerif.Props.C12Etm', 'FFVerif.Props.C10Shifts']
+# module C10Shifts: the frequency shifts (second order) under a change of basis, end to end from the pulse
+THEOREMS += [
+    'FFVerif.C10.secondOrderFF_loop_basis_change', 'FFVerif.C10.secondOrderFF_basis_change_of_mix',
+    'FFVerif.C10.secondOrderFF_basis_change', 'FFVerif.C10.frequency_shifts_basis_change',
+    'FFVerif.C10.frequency_shifts_basis_change_matrix', 'FFVerif.C10.frequency_shifts_basis_change_from_scratch',
+    'FFVerif.C10.etm_basis_change_second_order_from_scratch']
 PINS = ['pinIdentityElementIndex', 'pinGgmExpand']
 GEN_SITES = c01.GEN_SITES
 COMPONENTS = c01.COMPONENTS
